@@ -603,6 +603,10 @@ func (s *Sim) SetPoolDrop(permille int) {
 	s.mu.Unlock()
 }
 
+// Tracing reports whether the event log text is kept (replay / minimised runs):
+// verbose per-call logging is done only then.
+func (s *Sim) Tracing() bool { return s.cfg.KeepLog }
+
 // Results.
 func (s *Sim) Steps() int            { return s.steps }
 func (s *Sim) Switches() int         { return s.switches }
